@@ -34,8 +34,10 @@ pub uninterp spec fn req_headers<T>(r: http::Request<T>) -> http::HeaderMap;
 pub uninterp spec fn key_text<K>(k: K) -> Seq<char>;                          // the header name a lookup key denotes
 pub uninterp spec fn hm_get<T>(m: http::HeaderMap<T>, name: Seq<char>) -> Option<T>;   // first value of that name
 pub uninterp spec fn hv_text(v: http::header::HeaderValue) -> Option<Seq<char>>;   // Some(text) iff the value is visible ASCII
-pub uninterp spec fn parse_i128_spec(s: Seq<char>) -> Option<i128>;            // <i128 as FromStr>::from_str
-pub uninterp spec fn status_code(s: http::StatusCode) -> u16;
+pub uninterp spec fn parse_spec<F>(s: Seq<char>) -> Option<F>;                 // <F as FromStr>::from_str(s).ok()
+pub uninterp spec fn utf8_of(s: Seq<char>) -> Seq<u8>;                          // the UTF-8 encoding of a string
+pub uninterp spec fn clone_is_copy<T>() -> bool;                                // T::clone returns an equal value
+pub uninterp spec fn status_u16(s: http::StatusCode) -> u16;
 pub uninterp spec fn resp_status<T>(r: http::Response<T>) -> u16;
 pub uninterp spec fn resp_body<T>(r: http::Response<T>) -> T;
 pub uninterp spec fn box_body_bytes(b: http_body_util::combinators::BoxBody<hyper::body::Bytes, hyper::Error>) -> Seq<u8>;   // the bytes the body will yield
@@ -51,3 +53,64 @@ pub broadcast proof fn axiom_into_bytes_vec(v: Vec<u8>)
     ensures #[trigger] into_bytes_view::<Vec<u8>>(v) == v@
 {}
 
+
+// the instant the query names: the `x-ms-azure-time_tick` header parsed as i128. A request without the header, with a
+// non-text value or with unparsable text names no instant; the listener's documented default for those is 0.
+pub open spec fn query_tick_text<T>(r: http::Request<T>) -> Seq<char> {
+    match hm_get(req_headers(r), "x-ms-azure-time_tick"@) {
+        Some(v) => match hv_text(v) { Some(s) => s, None => "0"@ },
+        None => "0"@,
+    }
+}
+pub open spec fn query_instant<T>(r: http::Request<T>) -> i128 {
+    match parse_spec::<i128>(query_tick_text(r)) { Some(q) => q, None => 0 }
+}
+pub proof fn lits_headers()
+    ensures common::constants::METADATA_HEADER@ == "Metadata"@, common::constants::TIME_TICK_HEADER@ == "x-ms-azure-time_tick"@,
+{
+    reveal_strlit("Metadata"); reveal_strlit("x-ms-azure-time_tick");
+}
+#[verifier::external_body]
+pub broadcast proof fn axiom_fmt_parse_int_error() ensures #[trigger] vstd::std_specs::fmt::fmt_req_all::<core::num::ParseIntError>() {}
+#[verifier::external_body]
+pub broadcast proof fn axiom_fmt_serde_json_error() ensures #[trigger] vstd::std_specs::fmt::fmt_req_all::<serde_json::Error>() {}
+
+#[verifier::external_body]
+pub broadcast proof fn axiom_clone_is_copy_u8() ensures #[trigger] clone_is_copy::<u8>() {}
+
+pub assume_specification<T> [http::Request::<T>::headers] (r: &http::Request<T>) -> (h: &http::HeaderMap)
+    ensures *h == req_headers(*r);
+// http docs: "Returns a reference to the value associated with the key" (the first one), None if absent
+#[verifier::allow(undeclared_external_trait)]
+pub assume_specification<T, K> [http::HeaderMap::<T>::get] (m: &http::HeaderMap<T>, k: K) -> (r: std::option::Option<&T>)
+    where K: http::header::AsHeaderName,
+    ensures match r { Some(v) => hm_get(*m, key_text(k)) == Some(*v), None => hm_get(*m, key_text(k)) is None };
+// http docs: "Yields a &str slice if the HeaderValue only contains visible ASCII chars", an error otherwise
+pub assume_specification [http::HeaderValue::to_str] (v: &http::HeaderValue) -> (r: std::result::Result<&str, http::header::ToStrError>)
+    ensures match r { Ok(s) => hv_text(*v) == Some(s@), Err(_) => hv_text(*v) is None };
+#[verifier::allow(undeclared_external_trait)]
+pub assume_specification<F> [str::parse::<F>] (s: &str) -> (r: std::result::Result<F, <F as std::str::FromStr>::Err>)
+    where F: std::str::FromStr,
+    ensures parse_spec::<F>(s@) == (match r { Ok(v) => Some(v), Err(_) => None });
+#[verifier::allow(undeclared_external_trait)]
+pub assume_specification<T> [serde_json::to_string] (v: &T) -> (r: std::result::Result<std::string::String, serde_json::Error>)
+    where T: std::marker::MetaSized + serde::Serialize + ?Sized,
+    ensures r is Ok ==> r->Ok_0@ == json_of(v);
+// http docs: "Creates a new blank Response with the body ... status code 200 OK"
+pub assume_specification<T> [http::Response::<T>::new] (b: T) -> (r: http::Response<T>)
+    ensures resp_body(r) == b && resp_status(r) == 200;
+pub assume_specification<T> [<[T]>::to_vec] (s: &[T]) -> (r: std::vec::Vec<T>)
+    where T: std::clone::Clone,
+    ensures clone_is_copy::<T>() ==> r@ == s@;
+pub assume_specification [std::string::String::as_bytes] (s: &std::string::String) -> (r: &[u8])
+    ensures r@ == utf8_of(s@);
+#[verifier::allow(undeclared_external_trait)]
+pub assume_specification<T, K> [http::HeaderMap::<T>::insert] (m: &mut http::HeaderMap<T>, k: K, v: T) -> (r: std::option::Option<T>)
+    where K: http::header::IntoHeaderName;
+pub assume_specification<T> [http::Response::<T>::headers_mut] (r: &mut http::Response<T>) -> (h: &mut http::HeaderMap)
+    ensures resp_body(*final(r)) == resp_body(*old(r)) && resp_status(*final(r)) == resp_status(*old(r));
+// http docs: from_static "will panic if the argument contains invalid header value characters" (visible ASCII 32..=126 and tab are valid)
+pub assume_specification [http::HeaderValue::from_static] (s: &'static str) -> (r: http::HeaderValue)
+    requires forall|i: int| 0 <= i < s@.len() ==> 32 <= #[trigger] s@[i] as u32 && s@[i] as u32 <= 126;
+pub assume_specification<T> [http::Response::<T>::status_mut] (r: &mut http::Response<T>) -> (s: &mut http::StatusCode)
+    ensures resp_body(*final(r)) == resp_body(*old(r)) && resp_status(*final(r)) == status_u16(*final(s));
